@@ -2,6 +2,7 @@
 package all
 
 import (
+	_ "verifharness/c01"
 	_ "verifharness/c02"
 	_ "verifharness/c04"
 	_ "verifharness/c10"
